@@ -551,6 +551,7 @@ def styles(draw: Any, lint_clean: bool = False) -> render_bp.Style:
         seed=draw(st.integers(0, 1 << 16)),
         spicy_comments=draw(st.booleans()),
         trailing_comments=(not lint_clean) and draw(st.booleans()),
+        trailing_newline=lint_clean or draw(st.sampled_from([True, True, False])),
     )
 
 
